@@ -332,6 +332,18 @@ func (e *Engine) lookupType(name string) types.Type {
 		}
 		return types.NewPointer(t)
 	}
+	if strings.HasPrefix(name, "[") && !strings.HasPrefix(name, "[]") {
+		if k := strings.Index(name, "]"); k > 1 {
+			var n int64
+			if _, err := fmt.Sscanf(name[1:k], "%d", &n); err == nil {
+				t := e.lookupType(name[k+1:])
+				if t == nil {
+					return nil
+				}
+				return types.NewArray(t, n)
+			}
+		}
+	}
 	if strings.HasPrefix(name, "[]") {
 		t := e.lookupType(name[2:])
 		if t == nil {
